@@ -321,6 +321,8 @@ class Monitors:
             return
         # in-domain?  (raises OutOfDomain before any verdict, also for the raised case)
         exp, tol, unit = expected(spec, x, params)
+        if ev.depth == 0:
+            ctx.count('judged_top_level_calls:' + self.origin)
         if ev.exc is not None:
             ctx.violation('raised_on_valid',
                           f'{spec_str(spec)} raised {type(ev.exc).__name__}: {ev.exc} for a complete parameter set',
